@@ -14,7 +14,7 @@ import RV.Base.Proto
     pdoc <-|add|remove> <0|1 = target is src2> <hid|-> <hprev|->
                      -> the lines of serializeDoc on src, " ; "-separated:  H,id,n | H,prev,n | TX | TC | A|D,s,p,o,spell
     pparse <line> ; <line> ; …   -> "<ok|ParserError|ValueError> | quads" of parseDoc on the quads of src;
-                     line = B | C | <head> N | <head> . | <head> H <id|prev> <n> | <head> P | <head> Q s p o g
+                     line = B | C | <head> N | <head> K (only a comment) | <head> . | <head> H <id|prev> <n> | <head> P | <head> Q s p o g
                      (s, o: term or w<n> = `<_:bn>`;  g: U | name | w<n>)
   `store.contexts()` of the source = registered names ∪ names that carry a quad.
 -/
@@ -91,7 +91,7 @@ def showPTerm : PTerm → String
 def showPLabel : PLabel → String
   | .none => "U" | .plain g => showName g | .angle l => s!"w{l}"
 def showBody : PBody → String
-  | .none => "" | .dot => "" | .hdr false h => s!",id,{h}" | .hdr true h => s!",prev,{h}" | .pfx => ",pfx"
+  | .none => "" | .cmt => "" | .dot => "" | .hdr false h => s!",id,{h}" | .hdr true h => s!",prev,{h}" | .pfx => ",pfx"
   | .quad s p o g => s!",{showPTerm s},{showTerm p},{showPTerm o},{showPLabel g}"
 def showLine : PLine → String
   | .blank => "B" | .comment => "C"
@@ -112,6 +112,7 @@ def pline? : List String → Option PLine
   | ["B"] => some .blank
   | ["C"] => some .comment
   | [h, "N"] => some (.cmd h.toList .none)
+  | [h, "K"] => some (.cmd h.toList .cmt)
   | [h, "."] => some (.cmd h.toList .dot)
   | [h, "P"] => some (.cmd h.toList .pfx)
   | [h, "H", k, n] => do
